@@ -10,7 +10,7 @@ pid, wt, pkg = sys.argv[1:4]
 runre = sys.argv[4] if len(sys.argv) > 4 else '.'
 env = dict(os.environ, GOFLAGS='-mod=mod', GOPROXY='off', GOSUMDB='off', GOTOOLCHAIN='local')
 out = os.path.join(wt, '_out')
-dst = '/verif/seeded/%s' % pid
+dst = '/verif/seeded/%s%s' % (pid, os.environ.get('SEED_TAG', ''))  # SEED_TAG=-2 for a second change against the same property
 os.makedirs(dst, exist_ok=True)
 for f in ('patch.diff', 'demo_test.go', 'notes.md'):
     if os.path.exists(os.path.join(out, f)) and os.path.abspath(out) != os.path.abspath(dst):
@@ -19,6 +19,7 @@ def sh(cmd, cwd, timeout=1500):
     r = subprocess.run(cmd, shell=True, cwd=cwd, env=env, capture_output=True, text=True, timeout=timeout)
     return r.returncode, (r.stdout + r.stderr)
 scratch = '/tmp/seedchk-%s' % pid
+res_dir = dst
 sh('git -C /repo worktree remove --force %s' % scratch, '/')
 rc, o = sh('git -C /repo worktree add -q --detach %s HEAD' % scratch, '/')
 res = {'property': pid, 'package': pkg}
